@@ -59,6 +59,7 @@ impl ConditionEvaluatorBuilder {
          supported(*where_clause) ==> forall|row: Row| csem(conds(final(self).evaluator).last(), row) == sem_e(*where_clause, row), // OBL:C02.evaluator_builder.add_where_clause.appended_condition_means_the_expression
      decreases where_clause
 {
+         broadcast use into_seq_vec, lemma_list2, lemma_list_not;
         match where_clause {
             Expr::Compare { field, op, value } => {
 self.evaluator.__compare_arm(field, op, value);
@@ -79,7 +80,6 @@ self.evaluator.__in_arm(field, values);
                 let right_condition = right_builder.into_evaluator().into_conditions();
 
                 let mut combined_conditions = Vec::new();
-                 proof { into_seq_vec(left_condition); into_seq_vec(right_condition); if supported(*where_clause) { lemma_two(left_condition@, right_condition@, *where_clause); } }
                 combined_conditions.extend(left_condition);
                 combined_conditions.extend(right_condition);
 
@@ -99,7 +99,6 @@ self.evaluator.__in_arm(field, values);
                 let right_condition = right_builder.into_evaluator().into_conditions();
 
                 let mut combined_conditions = Vec::new();
-                 proof { into_seq_vec(left_condition); into_seq_vec(right_condition); if supported(*where_clause) { lemma_two(left_condition@, right_condition@, *where_clause); } }
                 combined_conditions.extend(left_condition);
                 combined_conditions.extend(right_condition);
 
@@ -114,7 +113,6 @@ self.evaluator.__in_arm(field, values);
                 expr_builder.add_where_clause(expr);
 
                 let expr_condition = expr_builder.into_evaluator().into_conditions();
-                 proof { if supported(*where_clause) { lemma_not(expr_condition@, *where_clause); } }
 
                 let logical_condition = LogicalCondition::new(expr_condition, LogicalOp::Not);
                 self.evaluator.add_logical_condition(logical_condition);
@@ -215,42 +213,30 @@ pub open spec fn esem(e: ConditionEvaluator, row: Row) -> bool {
 pub uninterp spec fn into_seq<T, I>(i: I) -> Seq<T>;
 pub assume_specification<T, A: core::alloc::Allocator, I: IntoIterator<Item = T>>[ <Vec<T, A> as Extend<T>>::extend ](v: &mut Vec<T, A>, i: I)
     ensures final(v)@ == old(v)@ + into_seq::<T, I>(i);
-pub axiom fn into_seq_vec<T>(v: Vec<T>)
-    ensures into_seq::<T, Vec<T>>(v) == v@;
-pub proof fn lemma_two(lc: Seq<BoxedCondition>, rc: Seq<BoxedCondition>, e: Expr)
-    requires supported(e), e is And || e is Or, lc.len() == 1, rc.len() == 1,
-        forall|row: Row| csem(lc[0], row) == sem_e(if e is And { *e->And_0 } else { *e->Or_0 }, row),
-        forall|row: Row| csem(rc[0], row) == sem_e(if e is And { *e->And_1 } else { *e->Or_1 }, row),
-    ensures forall|l: LogicalCondition, row: Row| l_list(l) == Seq::<BoxedCondition>::empty() + lc + rc
-            && ((e is And && l_op(l) is And) || (e is Or && l_op(l) is Or))
-        ==> #[trigger] csem(boxed(l), row) == sem_e(e, row)
+pub broadcast axiom fn into_seq_vec<T>(v: Vec<T>)
+    ensures #[trigger] into_seq::<T, Vec<T>>(v) == v@;
+pub broadcast proof fn lemma_list2(l: LogicalCondition, row: Row)
+    requires l_list(l).len() == 2, l_op(l) is And || l_op(l) is Or
+    ensures #[trigger] csem(boxed(l), row) == (if l_op(l) is And { csem(l_list(l)[0], row) && csem(l_list(l)[1], row) } else { csem(l_list(l)[0], row) || csem(l_list(l)[1], row) })
 {
-    assert forall|l: LogicalCondition, row: Row| l_list(l) == Seq::<BoxedCondition>::empty() + lc + rc
-            && ((e is And && l_op(l) is And) || (e is Or && l_op(l) is Or))
-        implies #[trigger] csem(boxed(l), row) == sem_e(e, row) by {
-        axiom_logical(l, row);
-        let s = l_list(l);
-        assert(s.len() == 2 && s[0] == lc[0] && s[1] == rc[0]);
-        if e is And {
-            if csem(lc[0], row) && csem(rc[0], row) {
-                assert forall|i: int| 0 <= i < s.len() implies csem(#[trigger] s[i], row) by { }
-            }
-        } else {
-            if lsem(l, row) {
-                let i = choose|i: int| 0 <= i < s.len() && csem(#[trigger] s[i], row);
-                assert(i == 0 || i == 1);
-            }
+    axiom_logical(l, row);
+    let s = l_list(l);
+    if l_op(l) is And {
+        if csem(s[0], row) && csem(s[1], row) {
+            assert forall|i: int| 0 <= i < s.len() implies csem(#[trigger] s[i], row) by { }
+        }
+    } else {
+        if lsem(l, row) {
+            let i = choose|i: int| 0 <= i < s.len() && csem(#[trigger] s[i], row);
+            assert(i == 0 || i == 1);
         }
     }
 }
-pub proof fn lemma_not(c: Seq<BoxedCondition>, e: Expr)
-    requires e is Not, c.len() == 1, forall|row: Row| csem(c[0], row) == sem_e(*e->Not_0, row)
-    ensures forall|l: LogicalCondition, row: Row| l_list(l) == c && l_op(l) is Not ==> #[trigger] csem(boxed(l), row) == sem_e(e, row)
+pub broadcast proof fn lemma_list_not(l: LogicalCondition, row: Row)
+    requires l_op(l) is Not, l_list(l).len() >= 1
+    ensures #[trigger] csem(boxed(l), row) == !csem(l_list(l)[0], row)
 {
-    assert forall|l: LogicalCondition, row: Row| l_list(l) == c && l_op(l) is Not implies #[trigger] csem(boxed(l), row) == sem_e(e, row) by {
-        axiom_logical(l, row);
-        assert(sem_e(e, row) == !sem_e(*e->Not_0, row));
-    }
+    axiom_logical(l, row);
 }
 
 } // verus!
